@@ -8,7 +8,8 @@
 (*   transport: socket close / reset / short packet / out-of-sequence      *)
 (*              packet / ERR packet / EOF packet / cancel  (FaultStop)     *)
 (*   handler error (FaultHandler), mapper error or column-count mismatch   *)
-(*   (FaultMapper), unsupported or invalid event (FaultInject).            *)
+(*   (FaultMapper), unsupported or invalid event (FaultInject), and an     *)
+(*   attempt that fails before its dump starts (FaultConnect).             *)
 (* The log is any sequence of at most MaxUnits units over SessionUnits.    *)
 (***************************************************************************)
 EXTENDS ModelLog
@@ -101,6 +102,19 @@ FaultStop ==
   /\ failed' = failed + 1
   /\ UNCHANGED <<files, nowPos, att, phase, rest, dumps, cleanEnd>>
 
+\* An attempt that ends before the dump starts (the master is unreachable, refuses the handshake, rejects the checksum
+\* announcement, or the connection dies right after it): no dump request, nothing parsed, and the stored position stays
+\* what it was.  Defect "connectFailResetsPos": the attempt writes back the position of a parser that never ran.
+NoDump == [file |-> 0, off |-> 0 - 1]
+FaultConnect ==
+  /\ phase = "idle" /\ att < MaxAttempts /\ failed < MaxFailed
+  /\ dumps' = Append(dumps, NoDump)
+  /\ nowPos' = IF "connectFailResetsPos" \in Defects THEN [file |-> 0, off |-> 0] ELSE nowPos
+  /\ att' = att + 1
+  /\ failed' = failed + 1
+  /\ cleanEnd' = FALSE
+  /\ UNCHANGED <<files, phase, st, rest, accAll>>
+
 EndAttempt ==
   /\ phase = "streaming"
   /\ st.status # "run" \/ rest = <<>>
@@ -112,7 +126,7 @@ EndAttempt ==
 
 Next ==
   \/ StartAttempt \/ Recv \/ EndAttempt
-  \/ FaultHandler \/ FaultStop
+  \/ FaultHandler \/ FaultStop \/ FaultConnect
   \/ \E m \in {"err", "mismatch"} : FaultMapper(m)
   \/ \E k \in {"invalid", "rand"} : FaultInject(k)
 
